@@ -1,4 +1,5 @@
 import LZ4V.Proofs.BlockHub
+import LZ4V.Proofs.FastRProof
 /-!
 # C18 — compression contexts stay correct after any history of reuse (specification part)
 -/
@@ -54,5 +55,23 @@ theorem decodes_against_declared_history_only (hist blk D : List UInt8) (h : dec
     rw [ht] at hd ⊢
     simp at hd
     rw [hd]
+
+/-- **A reused state never leaks an earlier input into a later block** (model `Model/FastR.lean` of
+    `LZ4_compress_fast_extState_fastReset` on ONE state that survives between calls: hash table, `currentOffset`, table type,
+    `LZ4_prepareTable`, `dictSmall`, 16-bit table entries).  For EVERY history of calls — any inputs, sizes, capacities,
+    accelerations, in any order — and every hash function, each block that is returned decodes, with NO history, to the input of its
+    own call.  The executable instance is byte-identical to the real function on every recorded history. -/
+theorem reused_state_blocks_decode_alone (hashOf : Array UInt8 → Bool → Nat → Nat) (calls : List (Array UInt8 × Int × Nat × Nat))
+    (k : Nat) (hk : k < calls.length) (blk : List UInt8)
+    (h : (LZ4V.Model.FastR.history hashOf {} calls)[k]? = some (some blk)) : decode [] blk = some (calls[k]).1.toList :=
+  LZ4V.Model.FastR.history_spec hashOf calls {} LZ4V.Model.FastR.J_init k hk blk h
+
+/-- the invariant behind it, for any state satisfying it (not only a fresh one): every table entry is an index not above
+    `currentOffset`; one call re-establishes it and returns only blocks that decode alone -/
+theorem reused_state_invariant (hashOf : Array UInt8 → Bool → Nat → Nat) (S : LZ4V.Model.FastR.RState) (src : Array UInt8)
+    (acceleration : Int) (cap bound : Nat) (hJ : LZ4V.Model.FastR.J S) :
+    LZ4V.Model.FastR.J (LZ4V.Model.FastR.call hashOf S src acceleration cap bound).1 ∧
+    (∀ blk, (LZ4V.Model.FastR.call hashOf S src acceleration cap bound).2 = some blk → decode [] blk = some src.toList) :=
+  LZ4V.Model.FastR.call_spec hashOf S src acceleration cap bound hJ
 
 end LZ4V.C18
